@@ -98,8 +98,19 @@ def _all_cases(C, tier, seed):
     return out
 
 
+def _api_rev():
+    # harness/c10.cpp includes harness/c10_api_*.hpp (the public-API sweep, one file per library area); the harness cache key only
+    # covers the main source and harness/common/*, so a hash of the included files goes into the compile flags
+    import glob, hashlib
+    h = hashlib.sha256()
+    for f in sorted(glob.glob(os.path.join(os.path.dirname(os.path.dirname(os.path.dirname(os.path.abspath(__file__)))), 'harness', 'c10_api_*.hpp'))):
+        h.update(open(f, 'rb').read())
+    return '-DC10_API_REV=0x' + h.hexdigest()[:8]
+
+
 SPEC = {
     'id': 'C10',
+    'harness_flags': (_api_rev(),),
     # C10(b): besides its own cursor model (match) C10 re-audits the in-bounds / totality theorems that the other properties
     # proved about the manual index and iterator cores named in C10's anchors (they live with the property that models the core)
     'lean_modules': ['AITB.Props.C10', 'AITB.Props.C10Util', 'AITB.Props.C10Choose', 'AITB.Props.C10Sites', 'AITB.Props.C10FG', 'AITB.Props.C10Naive', 'AITB.Props.C10Union', 'AITB.Props.C10BG', 'AITB.Props.C20', 'AITB.Props.C11Traces', 'AITB.Props.C12Interp', 'AITB.Props.C12InterpValue', 'AITB.Props.C12Prune', 'AITB.Props.C12PruneStrong', 'AITB.Props.C08Dense',
